@@ -77,13 +77,13 @@ def step : List String → String
       | some b => Bytes.toHexTok b
       | none => "panic"
     | none => "bad-op"
-  | ["rv", emb, maxIO, vLen, vOff, hVal, logs, txLog] =>
-    match maxIO.toNat?, vLen.toNat?, vOff.toNat?, dg? hVal, parseCsv logs, Bytes.ofHex txLog with
-    | some maxIO, some vLen, some vOff, some hVal, some logs, some txLog =>
-      match readValue shaHs ⟨emb == "1", maxIO⟩ logs txLog ⟨[], [], vLen, vOff, hVal⟩ with
+  | ["rv", emb, maxIO, maxVal, vLen, vOff, hVal, logs, txLog] =>
+    match maxIO.toNat?, maxVal.toNat?, vLen.toNat?, vOff.toNat?, dg? hVal, parseCsv logs, Bytes.ofHex txLog with
+    | some maxIO, some maxVal, some vLen, some vOff, some hVal, some logs, some txLog =>
+      match readValue shaHs ⟨emb == "1", maxIO, maxVal⟩ logs txLog ⟨[], [], vLen, vOff, hVal⟩ with
       | .ok v => "ok " ++ Bytes.toHexTok v
       | .error e => errTokV e
-    | _, _, _, _, _, _ => "bad-op"
+    | _, _, _, _, _, _, _ => "bad-op"
   | _ => "bad-op"
 
 end Driver.C09
